@@ -10,6 +10,7 @@ From Dimod Require Model.VartypeOps Model.FlipMarks Proofs.FlipMarksFacts.
 From Dimod Require Gen.Gen_HPolyPy Proofs.HPolyPyGenFacts.
 From Dimod Require Gen.Gen_LoopShapes.
 From Dimod Require Proofs.FlipMarksAgree.
+From Dimod Require Model.Samples Model.ChkC03 Proofs.PolyFixRows Model.Solve Proofs.SolveComp Proofs.Round4Corners.
 Import ListNotations.
 Open Scope Qc_scope.
 
@@ -473,3 +474,39 @@ Proof. vm_compute. reflexivity. Qed.
    (translators/loop_shapes.py fails, and with it this build, as soon as one of them is edited) *)
 Example C03_mirrored_loops_pinned : length Gen_LoopShapes.gen_pinned_loops = 15%nat.
 Proof. reflexivity. Qed.
+
+(* ---- PolyFixedVariableComposite.sample_poly, the rows it returns (round 4) ---- *)
+(* a row that carries the fixed values: the fixed polynomial and the original agree on it *)
+Theorem C03_poly_fix_energy_at_consistent_row :
+  forall (fs : list (label * Qc)) (p : hpoly) (s : sample),
+  (forall f, In f fs -> s (fst f) = snd f) -> henergy (hfix fs p) s = henergy p s.
+Proof. exact PolyFixRows.hfix_energy_at_consistent. Qed.
+Print Assumptions C03_poly_fix_energy_at_consistent_row.
+
+(* the verdict of the check on the composite's rows is the property: energies are the ORIGINAL polynomial's at each
+   returned row and each row carries every fixed value *)
+Theorem C03_poly_composite_check_sound :
+  forall c : ChkC03.pcase,
+  ChkC03.pcheck c = true ->
+  map (fun row => henergy (ChkC03.pc_poly c) (Samples.row_sample (ChkC03.pc_ls c) row)) (ChkC03.pc_rows c)
+    = ChkC03.pc_en c
+  /\ forall row, In row (ChkC03.pc_rows c) ->
+       forall f, In f (ChkC03.pc_fixes c) -> Samples.row_sample (ChkC03.pc_ls c) row (fst f) = snd f.
+Proof. exact PolyFixRows.pcheck_sound. Qed.
+Print Assumptions C03_poly_composite_check_sound.
+
+(* the composite as a whole (model Solve.polyfixed_result: fix, sample the child, append the fixed columns; the
+   empty-child corner included): an honest child gives rows honest for the ORIGINAL polynomial *)
+Theorem C03_poly_composite_energy_is_original :
+  forall (orig : hpoly) (fs : list (label * Qc)) (r : Solve.result),
+    (forall row, In row (Solve.r_rows r) -> length row = length (Solve.r_labels r)) ->
+    (forall f, In f fs -> ~ In (fst f) (Solve.r_labels r)) ->
+    Solve.honest (henergy (hfix fs orig)) r -> Solve.honest (henergy orig) (Solve.polyfixed_result orig fs r).
+Proof. exact SolveComp.polyfixed_honest. Qed.
+Print Assumptions C03_poly_composite_energy_is_original.
+
+(* nothing fixed: the model is returned as it is (specification and python loop) *)
+Theorem C03_fix_nothing_is_identity :
+  forall p : poly, fix_variables [] p = p /\ FixPy.py_fix_variables [] p = p.
+Proof. exact Round4Corners.fix_nothing_is_identity. Qed.
+Print Assumptions C03_fix_nothing_is_identity.
